@@ -113,14 +113,16 @@ def run(ctx: Ctx, rep: Report) -> None:
     eng_param = gen.params[2]
     cred_param = gen.params[3]
     want_src = {
-        "security_engine_id": eng_param,
-        "engine_boots": f"self.local_config[{eng_param}]['authoritative_engine_boots']",
-        "engine_time": f"self.local_config[{eng_param}]['authoritative_engine_time']",
-        "security_name": f"{cred_param}.username.encode('ascii')",
+        "engine_id": eng_param,
+        "boots": f"self.local_config[{eng_param}]['authoritative_engine_boots']",
+        "time": f"self.local_config[{eng_param}]['authoritative_engine_time']",
+        "user": f"{cred_param}.username.encode('ascii')",
         "credentials": cred_param,
     }
     got = {k: norm(gdefs.expand(v)) for k, v in eb.items()}
-    ok = all(got.get(k) == v for k, v in want_src.items())
+    # which parameter of the encryption step plays which role is read off this call site (names are free to change)
+    roles = {role: next((p for p, txt in got.items() if txt == src), None) for role, src in want_src.items()}
+    ok = all(v is not None for v in roles.values()) and len(set(roles.values())) == len(roles)
     rep.check(ok, "C10-R2", gen.site(ae_call), "engine id <- the discovered engine, boots / time <- that engine's timing cache, user <- credentials.username", f"{got}", key=f"{gen.key}|parameter-provenance")
     # the timing cache is written by set_engine_timing under the same keys
     st = own_method(ctx, usm, "set_engine_timing")
@@ -167,7 +169,7 @@ def run(ctx: Ctx, rep: Report) -> None:
         for n in own_nodes(host.node):
             if isinstance(n, ast.Call) and ctx.r.resolve_class(host.module, n.func) == params_cls:
                 pb = bind_call_args(n, dataclass_fields(params_cls), skip_self=False)
-                want = {"authoritative_engine_id": "security_engine_id", "authoritative_engine_boots": "engine_boots", "authoritative_engine_time": "engine_time", "user_name": "security_name", "auth_params": "b''"}
+                want = {"authoritative_engine_id": roles.get("engine_id"), "authoritative_engine_boots": roles.get("boots"), "authoritative_engine_time": roles.get("time"), "user_name": roles.get("user"), "auth_params": "b''"}
                 g3 = {k: norm(v) for k, v in pb.items()}
                 privp = g3.get("priv_params")
                 ok = all(g3.get(k) == v for k, v in want.items()) and (privp in ("b''", "salt") or privp in host.params)
